@@ -249,3 +249,74 @@ def num_in(x, lo, hi, dt):
             return lo <= int(x) <= hi
         return conj([implies(x, 1 <= hi and 1 >= lo), implies(neg(x), lo <= 0 <= hi)])
     return conj([J.s_cmp("ge", x, int(lo), dt), J.s_cmp("le", x, int(hi), dt)])
+
+
+# --------------------------------------------------------------- end-to-end differential validation (DESIGN 1.6/2)
+def _pairs(sym_tree, conc_tree_):
+    pairs = []
+    for sv, c in zip(leaves(sym_tree), jax.tree_util.tree_leaves(conc_tree_)):
+        if sv.conc:
+            continue
+        c = np.asarray(c)
+        if jax.dtypes.issubdtype(c.dtype, jax.dtypes.prng_key):
+            c = np.asarray(jax.random.key_data(c))
+        for x, v in zip(sv.a.reshape(-1), c.reshape(-1)):
+            if is_sym(x):
+                k = sv.dtype.kind
+                pairs.append((x, to_z3(bool(v) if k == "b" else int(v) if k in "iu" else np.float32(v), sv.dtype)))
+    return pairs
+
+
+def eval_under(out_tree, pairs):
+    """evaluate symbolic outputs under a concrete assignment of the inputs; elements that still
+    depend on other variables (random stubs) come back as None"""
+    def ev(sv):
+        if sv.conc:
+            return np.asarray(sv.a), np.ones(sv.shape, bool)
+        out = np.zeros(sv.shape, dtype=sv.dtype)
+        known = np.ones(sv.shape, bool)
+        of, kf = out.reshape(-1), known.reshape(-1)
+        for i, x in enumerate(sv.a.reshape(-1)):
+            if not is_sym(x):
+                of[i] = x
+                continue
+            v = z3.simplify(z3.substitute(x, *pairs)) if pairs else z3.simplify(x)
+            k = sv.dtype.kind
+            if k == "b" and (z3.is_true(v) or z3.is_false(v)):
+                of[i] = z3.is_true(v)
+            elif k in "iu" and z3.is_bv_value(v):
+                of[i] = v.as_signed_long() if k == "i" else v.as_long()
+            elif k == "f" and z3.is_fp_value(v):
+                if v.isNaN():
+                    of[i] = np.nan
+                else:
+                    bv = z3.simplify(z3.fpToIEEEBV(v))
+                    of[i] = struct.unpack("<f", struct.pack("<I", bv.as_long()))[0]
+            else:
+                kf[i] = False
+        return out, known
+    return [ev(sv) for sv in leaves(out_tree)]
+
+
+def differential(R, name, in_sym, out_sym, real_out, in_conc):
+    """compare the encoding under a concrete input with the real function's output; mismatch = harness error"""
+    pairs = _pairs(in_sym, in_conc)
+    res = eval_under(out_sym, pairs)
+    real = [np.asarray(jax.random.key_data(x)) if jax.dtypes.issubdtype(getattr(x, "dtype", np.dtype("i4")), jax.dtypes.prng_key) else np.asarray(x)
+            for x in jax.tree_util.tree_leaves(real_out)]
+    assert len(res) == len(real), (len(res), len(real))
+    n_cmp = 0
+    for i, ((v, known), r) in enumerate(zip(res, real)):
+        r = np.asarray(r).reshape(v.shape)
+        a, b = v[known], r[known]
+        n_cmp += int(known.sum())
+        if a.dtype.kind == "f":
+            same = np.array_equal(a.astype(np.float32), b.astype(np.float32), equal_nan=True)
+        else:
+            same = np.array_equal(a, b.astype(a.dtype))
+        if not same:
+            R.harness_errors.append(f"{R.job}: encoding of {name} disagrees with the real function on a concrete input, output leaf {i}: "
+                                    f"encoded={a.tolist()[:12]} real={b.tolist()[:12]}")
+            return False
+    R.validated += 1
+    return True
